@@ -124,7 +124,11 @@ private theorem step_latch (a : Arch) : latchedA (stepArch a).1 + acceptsN a ≤
 
 private theorem latchedA_le (a : Arch) : latchedA a ≤ 1 := by unfold latchedA; split <;> omega
 
-/-- over any finite history (steps, timed steps, requests, NMIs, host writes): the number of
+/-- a request raised before the previous one was consumed replaces it: there is one latch, not a queue -/
+theorem C11_latest_request (c : Cpu) (b1 b2 : UInt8) : (c.intRequest b1).intRequest b2 = c.intRequest b2 := rfl
+
+/-- over any finite history of host calls (steps, timed steps, requests, NMIs, stores, loads, clears, clock
+    settings, register assignments): the number of
     accepted maskable interrupts never exceeds the number of requests raised (plus one if a request
     was already latched at the start) -/
 theorem C11_once (c : Cpu) (es : List Event) :
@@ -169,6 +173,34 @@ theorem C11_once (c : Cpu) (es : List Event) :
       omega
     | setRom s t =>
       have e1 : latched (runEvent c (.setRom s t)) = latched c := rfl
+      simp only [acceptCount, requestCount] at *
+      omega
+    | load file org =>
+      have e1 : latched (runEvent c (.load file org)) = latched c := by
+        show latched (c.loadBin file org) = _
+        unfold Cpu.loadBin; split <;> rfl
+      simp only [acceptCount, requestCount] at *
+      omega
+    | clear s t =>
+      have e1 : latched (runEvent c (.clear s t)) = latched c := by
+        show latched (c.clearSlice s t) = _
+        unfold Cpu.clearSlice; split <;> rfl
+      simp only [acceptCount, requestCount] at *
+      omega
+    | observe =>
+      have e1 : latched (runEvent c .observe) = latched c := rfl
+      simp only [acceptCount, requestCount] at *
+      omega
+    | setFreq n =>
+      have e1 : latched (runEvent c (.setFreq n)) = latched c := rfl
+      simp only [acceptCount, requestCount] at *
+      omega
+    | setSliceDuration d =>
+      have e1 : latched (runEvent c (.setSliceDuration d)) = latched c := rfl
+      simp only [acceptCount, requestCount] at *
+      omega
+    | hostReg w v =>
+      have e1 : latched (runEvent c (.hostReg w v)) = latched c := rfl
       simp only [acceptCount, requestCount] at *
       omega
 
